@@ -113,6 +113,7 @@ func runC07(r *engine.Run) {
 		return
 	}
 	lorawan.VerifRegistryReset()
+	macCommandReuse(r)
 
 	// ---- values
 	for ci := range spec.Commands {
@@ -581,6 +582,62 @@ func runC07(r *engine.Run) {
 				c.Fail("values/DeviceTimeAns/TimeSinceGPSEpoch/silently-altered", fmt.Sprintf("%v encodes without error to %x, which decodes to %v (%v away; the wire resolution is 1/256 s = %v)", d, b, back.TimeSinceGPSEpoch, diff, time.Duration(step)), nil)
 			}
 			c.Outcome("devicetime/between-steps/within-resolution")
+		}
+	})
+
+	// ---- registry: every registered size 1..300 (one registration from the reset registry): the stream
+	// decoder frames the CID with exactly that size, in FOpts form and as a port-0 FRMPayload
+	r.PartWorkers("registry/sizes", []string{"size:1..300", "direction:2", "cid{80,ff}"}, 300*2*2, 1, func(c *engine.Case) {
+		sz := int(c.Index%300) + 1
+		uplink := (c.Index/300)%2 == 1
+		cid := []byte{0x80, 0xFF}[c.Index/600]
+		lorawan.VerifRegistryReset()
+		defer lorawan.VerifRegistryReset()
+		c.Eval()
+		if err := lorawan.RegisterProprietaryMACCommand(uplink, lorawan.CID(cid), sz); err != nil {
+			c.Fail("registry/sizes/registration-refused", fmt.Sprintf("RegisterProprietaryMACCommand(uplink=%v, %02x, %d): %v", uplink, cid, sz, err), nil)
+			return
+		}
+		if _, got, err := lorawan.GetMACPayloadAndSize(uplink, lorawan.CID(cid)); err != nil || got != sz {
+			c.Fail("registry/sizes/lookup", fmt.Sprintf("registered size %d: GetMACPayloadAndSize gives %d (err %v)", sz, got, err), nil)
+			return
+		}
+		c.NonTrivial()
+		pay := make([]byte, sz)
+		for k := range pay {
+			pay[k] = byte(0x80 + k%7) // bytes that are CIDs themselves if mis-framed
+		}
+		tail := spec.Example(uplink, 0x02)
+		stream := append(append([]byte{cid}, pay...), tail.Bytes()...)
+		want, _ := spec.FrameCmds(uplink, stream, func(b byte) int {
+			if b == cid {
+				return sz
+			}
+			return 0
+		})
+		mt := lorawan.UnconfirmedDataDown
+		if uplink {
+			mt = lorawan.UnconfirmedDataUp
+		}
+		p := lorawan.PHYPayload{MHDR: lorawan.MHDR{MType: mt}, MACPayload: &lorawan.MACPayload{FHDR: lorawan.FHDR{FOpts: []lorawan.Payload{&lorawan.DataPayload{Bytes: append([]byte(nil), stream...)}}}}}
+		if err := p.DecodeFOptsToMACCommands(); err != nil {
+			c.Fail("registry/sizes/framing-error", fmt.Sprintf("size %d uplink=%v: stream %x: %v", sz, uplink, stream, err), nil)
+			return
+		}
+		if msg := sameCmds(uplink, p.MACPayload.(*lorawan.MACPayload).FHDR.FOpts, want); msg != "" {
+			c.Fail("registry/sizes/framing-differs-from-model", fmt.Sprintf("size %d uplink=%v: stream of %d bytes: %s", sz, uplink, len(stream), msg), nil)
+			return
+		}
+		if len(stream) <= 242 {
+			port := uint8(0)
+			q := lorawan.PHYPayload{MHDR: lorawan.MHDR{MType: mt}, MACPayload: &lorawan.MACPayload{FPort: &port, FRMPayload: []lorawan.Payload{&lorawan.DataPayload{Bytes: append([]byte(nil), stream...)}}}}
+			if err := q.DecodeFRMPayloadToMACCommands(); err != nil {
+				c.Fail("registry/sizes/framing-error", fmt.Sprintf("size %d uplink=%v: port-0 payload %x: %v", sz, uplink, stream, err), nil)
+				return
+			}
+			if msg := sameCmds(uplink, q.MACPayload.(*lorawan.MACPayload).FRMPayload, want); msg != "" {
+				c.Fail("registry/sizes/framing-differs-from-model", fmt.Sprintf("size %d uplink=%v: port-0 payload of %d bytes: %s", sz, uplink, len(stream), msg), nil)
+			}
 		}
 	})
 
